@@ -5,7 +5,7 @@
    producers.  Partial because liveness is stated as stuck-state freedom (every state in
    which work is pending has an enabled step of the thread that has to do it); real time
    and the fairness of the Go scheduler are not modelled. *)
-From Verif Require Import Base.Prelude Lts.Diode Lts.Waiter Proofs.DiodeP Proofs.WaiterInvP Proofs.WaiterP.
+From Verif Require Import Base.Prelude Lts.Diode Lts.Waiter Proofs.DiodeP Proofs.WaiterInvP Proofs.WaiterP Proofs.WaiterTermP.
 From Coq Require Import Permutation.
 Open Scope N_scope.
 
@@ -23,6 +23,16 @@ Theorem C12_close_returns : forall wt gt n ps sched, let w := wrun wt gt n ps sc
   (cancelled w = true -> is_cdone (cons w) = false -> enabled w TCons || enabled w TCancel = true) /\
   (cons w = CDone -> closer w = KAwait -> enabled w TCloser = true).
 Proof. exact close_returns. Qed.
+
+(* ... and it returns within a bounded number of steps: once Close has cancelled the context
+   (Close called after the last Write returned), EVERY sequence of steps that are actually taken
+   (by whichever threads, in whichever order) is at most 16*size + 26 long - each step lowers the
+   measure 16*(non-empty slots) + 8*(message in the consumer's hand) + program-counter ranks.
+   With (2) and (3) above: every maximal run ends with Close returned. *)
+Theorem C12_close_terminates : forall wt n ps sched0 sched, let w := wrun wt true n ps sched0 in
+  cancelled w = true -> effective w sched = true ->
+  N.of_nat (length sched) <= 16 * N.of_nat n + 26.
+Proof. exact close_terminates. Qed.
 
 (* polling mode: the consumer is never disabled before it has finished *)
 Theorem C12_poller_not_stuck : forall gt n ps sched, let w := wrun false gt n ps sched in
@@ -77,6 +87,7 @@ Example C12_ex_close :
 Proof. vm_compute. auto. Qed.
 
 Print Assumptions C12_close_returns.
+Print Assumptions C12_close_terminates.
 Print Assumptions C12_poller_not_stuck.
 Print Assumptions C12_waiter_lost_wakeup_refuted.
 Print Assumptions C12_waiter_prompt_partial.
